@@ -144,6 +144,7 @@ class Sim:
         self.evno = 0
         self.forced = None                  # (thread name, decisions left)
         self.fairness = 100                 # decisions a runnable thread may wait
+        self.fair_quantum = 12              # decisions granted to a starved thread
         self.spin_limit = 300               # decisions without any event
         self._progress_at = 0
 
@@ -376,9 +377,12 @@ class Sim:
             self.decisions += 1
             # threads that spin without synchronising still let time pass
             if (idx - self._progress_at > self.spin_limit
-                    and timer is not None and not self._lock_waiter()):
+                    and timer is not None and not self._lock_waiter()
+                    and timer - self.now <= self.max_stall):
                 self._progress_at = idx
                 self.count('spin_advance')
+                self.stall_log.append((idx, self.now, timer,
+                                       [t.name for t in runnable]))
                 self.logev('spin.advance', timer)
                 self._advance(timer)
                 continue
@@ -387,9 +391,11 @@ class Sim:
             if len(cands) > 1:
                 oldest = min(cands, key=lambda t: t.last_run)
                 if idx - oldest.last_run > self.fairness and \
-                        oldest is not default:
+                        oldest is not default and self.forced is None:
                     oldest.last_run = idx
                     self.count('fairness_forced')
+                    # a time slice, not a single step
+                    self.forced = (oldest.name, self.fair_quantum)
                     return oldest
             if self.forced is not None:
                 name, left = self.forced
